@@ -108,7 +108,7 @@ def explore(ck, cfg, maxlen, mode_args):
 def main(ck):
     ck.assumptions = [
         "FIBER backend (sequentially consistent, cooperative); ordering effects are C04's subject",
-        "pipelines of unique futures over one value/error type; combinators, coroutine frames and shared states are covered by the layers (2)/(3) theorems and by the C06/C09/C13 checks' own oracles, not by this harness",
+        "the Own.run correspondence covers pipelines of unique futures; SharedFuture sources with plain and unwrapping continuations (throwing / skipped, other handles alive) are explored with the oracle only; combinators and coroutine frames are covered by the layer (2)/(3) theorems and by the C09/C10/C13 checks' own oracles",
         "for a final DetachInline step the Detach core's own word is not named: its publication and self-release are synthesised in the replay (the oracle still checks its functor and the allocation balance)",
         "heap misuse invisible to instance tracking, allocation balance and ASan (e.g. use of a freed block re-allocated identically) is not detected",
     ]
@@ -119,14 +119,18 @@ def main(ck):
     ]
     ck.prove("props/Properties_C03.v", ["model/OwnObs.vo"])
     rows = []
+    # unique-future pipelines (s*/f*/...) are replayed through Own.run; the SharedFuture family (shared/...) is
+    # oracle-only (plain and unwrapping continuations, throwing / skipped, while other handles stay alive)
     if ck.tier == "quick":
-        rows += explore(ck, "F", 1, ["--mode", "dfs"])
-        rows += explore(ck, "F", 2, ["--mode", "random", "--max", "40", "--seed", str(ck.seed), "--only", "m"])
+        rows += explore(ck, "F", 1, ["--mode", "dfs", "--only", "/f"])
+        rows += explore(ck, "F", 2, ["--mode", "random", "--max", "40", "--seed", str(ck.seed), "--only", "/f"])
+        rows += explore(ck, "F", 1, ["--mode", "dfs", "--pb", "2", "--only", "shared/"])
     else:
-        rows += explore(ck, "F", 1, ["--mode", "dfs"])
-        rows += explore(ck, "F", 2, ["--mode", "dfs", "--pb", "3"])
+        rows += explore(ck, "F", 1, ["--mode", "dfs", "--only", "/f"])
+        rows += explore(ck, "F", 2, ["--mode", "dfs", "--pb", "3", "--only", "/f"])
+        rows += explore(ck, "F", 1, ["--mode", "dfs", "--only", "shared/"])
         rows += explore(ck, "FA", 1, ["--mode", "dfs", "--pb", "2"])
-        rows += explore(ck, "FA", 2, ["--mode", "random", "--max", "60", "--seed", str(ck.seed)])
+        rows += explore(ck, "FA", 2, ["--mode", "random", "--max", "60", "--seed", str(ck.seed), "--only", "/f"])
     heads = [r for r in rows if "mode" in r]
     traces = [r for r in rows if "trace" in r]
     ck.cov["evaluations"] = sum(h["executions"] for h in heads)
@@ -140,7 +144,7 @@ def main(ck):
     seen, terms, metas = set(), [], []
     seen_ev, dup_ev = set(), 0
     for t in traces:
-        if t["fail"] or t["deadlock"]:
+        if t["fail"] or t["deadlock"] or t["scenario"].startswith("shared/"):
             continue
         key = (t["scenario"], t["trace"])
         if key in seen:
